@@ -67,6 +67,8 @@ class RustDefs:
                 if mm:
                     names.append(mm.group(1))
             self.structs[name] = names
+        for m in re.finditer(r"\bstruct\s+(\w+)\s*(?:<[^({;]*>)?\s*\(", text):
+            self.structs.setdefault(m.group(1), [])   # tuple struct: positional fields
 
     @staticmethod
     def _balanced(text, open_idx):
@@ -308,6 +310,9 @@ class Exec:
         self.max_paths = 4000
         self.overflow_checks = False
         self.opaque_types = {"VariableName", "PStr"}
+        # environment stubs: callee regex -> tag.  The call is recorded as an event (tag, args) in the
+        # path and returns an arbitrary value of the destination's type (Lazy).
+        self.opaque_calls = []
         self.npaths = 0
         self.called = set()
 
@@ -326,15 +331,16 @@ class Exec:
             raise Untranslatable("solver unknown while pruning paths")
         return r == z3.sat
 
-    def materialize(self, lz, pc_extra):
+    def materialize(self, lz, st):
         """Turn a Lazy input into a concrete-shaped symbolic value of its type."""
+        pc_extra = st["pc"]
         ty = lz.ty.strip()
         if ty in INT_TYPES:
             return Sc(z3.BitVec(lz.nm, INT_TYPES[ty][0]), ty)
         if ty == "bool":
             return Sc(z3.Bool(lz.nm), "bool")
         if is_ref(ty):
-            return Ref(Cell(Lazy(deref_ty(ty), lz.nm + ".*")), [], ty)
+            return Ref(("m", lz.nm + ".*", deref_ty(ty)), [], ty)
         if ty.startswith("("):
             return Adt(ty, 0, {0: {}}, lz.nm)
         base = strip_path(ty)
@@ -350,10 +356,25 @@ class Exec:
         # opaque
         return Sc(z3.Const(lz.nm, opaque_sort(base)), "opaque:" + base)
 
+    # ---- memory: every cell is path-local (st["mem"] / st["frames"]); a Ref only holds a key
+    def cell_get(self, st, key):
+        if key[0] == "l":
+            return st["frames"][key[1]].get(key[2])
+        mem = st.setdefault("mem", {})
+        if key[1] not in mem:
+            mem[key[1]] = Lazy(key[2], key[1])
+        return mem[key[1]]
+
+    def cell_set(self, st, key, v):
+        if key[0] == "l":
+            st["frames"][key[1]][key[2]] = v
+        else:
+            st.setdefault("mem", {})[key[1]] = v
+
     # ---- value plumbing
     def force(self, v, st):
         if isinstance(v, Lazy):
-            return self.materialize(v, st["pc"])
+            return self.materialize(v, st)
         return v
 
     def field_get(self, adt, vidx, fidx, fty, st):
@@ -365,7 +386,7 @@ class Exec:
             vs[fidx] = Lazy(fty, "%s.v%d.f%d" % (adt.nm or "tmp", vidx, fidx))
         v = vs[fidx]
         if isinstance(v, Lazy):
-            v = self.materialize(v, st["pc"])
+            v = self.materialize(v, st)
             vs[fidx] = v
         return v
 
@@ -378,10 +399,12 @@ class Exec:
                 v = self.force(v, st)
                 if not isinstance(v, Ref):
                     raise Untranslatable("deref of non-ref")
-                root = v.cell.v
+                root = self.cell_get(st, v.cell)
+                if root is None:
+                    raise Untranslatable("deref of a reference to an unassigned local")
                 if isinstance(root, Lazy):
-                    root = self.materialize(root, st["pc"])
-                    v.cell.v = root
+                    root = self.materialize(root, st)
+                    self.cell_set(st, v.cell, root)
                 v = self.read_path(root, v.path, st)
             else:
                 raise Untranslatable("projection %r" % (pr,))
@@ -407,10 +430,10 @@ class Exec:
             root = self.force(root, st)
             if not isinstance(root, Ref):
                 raise Untranslatable("deref write of non-ref")
-            cur = root.cell.v
+            cur = self.cell_get(st, root.cell)
             if isinstance(cur, Lazy):
-                cur = self.materialize(cur, st["pc"])
-            root.cell.v = self.write_path(cur, root.path + path[1:], newv, st)
+                cur = self.materialize(cur, st)
+            self.cell_set(st, root.cell, self.write_path(cur, root.path + path[1:], newv, st))
             return root
         raise Untranslatable("projection %r" % (pr,))
 
@@ -499,25 +522,37 @@ class Exec:
             name = s[6:].strip()
             # promoted constant or named const: evaluate its body
             if name in self.fns:
-                return self.eval_const_fn(name)
+                return self.eval_const_fn(name, st)
             t = self.resolve(name, fn)
             if t is not None:
-                return self.eval_const_fn(t.name)
+                return self.eval_const_fn(t.name, st)
+            if name.startswith('"') or name.startswith('b"') or name.startswith("b'"):
+                # string / byte-string literal: an opaque value (only ever handed to environment stubs)
+                self.fresh_n += 1
+                return Sc(z3.Const("lit!%d" % self.fresh_n, opaque_sort("literal")), "opaque:literal")
             raise Untranslatable("constant %s" % name)
         raise Untranslatable("operand %s" % s)
 
-    def eval_const_fn(self, name):
+    def eval_const_fn(self, name, st):
         paths = self.run_fn(self.fns[name], [], [])
         if len(paths) != 1 or paths[0].outcome[0] != "return":
             raise Untranslatable("const body %s" % name)
-        return paths[0].outcome[1]
+        v = paths[0].outcome[1]
+        if isinstance(v, Ref) and v.cell[0] == "l":
+            # a promoted `&CONST`: move the referent from the (dead) const-evaluation frame into a
+            # memory cell of the current path
+            tgt = self.cell_get(paths[0].state, v.cell)
+            key = ("m", "const!" + name, deref_ty(v.ty))
+            self.cell_set(st, key, tgt)
+            return Ref(key, v.path, v.ty)
+        return v
 
     def read_local(self, base, path, st):
         if base not in st["locals"]:
             raise Untranslatable("read of unassigned local %s" % base)
         v = st["locals"][base]
         if isinstance(v, Lazy):
-            v = self.materialize(v, st["pc"])
+            v = self.materialize(v, st)
             st["locals"][base] = v
         return self.read_path(v, path, st)
 
@@ -713,9 +748,8 @@ class Exec:
             # reborrow through a deref at the head: reuse the target ref
             if path and path[0][0] == "deref" and False:
                 pass
-            cell = st["cells"].setdefault(base, None)
-            # references to locals: a Ref whose cell aliases the local slot
-            return Ref(LocalCell(st, base), path, "&" + ty)
+            # references to locals: the cell key names the frame and the local
+            return Ref(("l", st["fid"], base), path, "&" + ty)
         # aggregates -------------------------------------------------------
         if rv.startswith("(") and rv.endswith(")"):
             inner = rv[1:-1].strip()
@@ -723,7 +757,11 @@ class Exec:
             elems = [e for e in elems if e.strip()]
             return Adt(dest_ty or "(tuple)", 0, {0: {i: self.eval_operand(e, fn, st) for i, e in enumerate(elems)}})
         if rv.startswith("[") and rv.endswith("]"):
-            raise Untranslatable("array aggregate")
+            inner = rv[1:-1].strip()
+            if ";" in inner:
+                raise Untranslatable("array repeat aggregate")
+            elems = [e for e in RustDefs._split_top(inner, ",") if e.strip()]
+            return Adt(dest_ty or "[array]", 0, {0: {i: self.eval_operand(e, fn, st) for i, e in enumerate(elems)}})
         m = re.match(r"^(\{closure@[^}]+\})(?: \{(.*)\})?$", rv, re.S)
         if m:
             caps = {}
@@ -808,11 +846,19 @@ class Exec:
         return [s.strip() for s in out if s.strip()]
 
     # ---- function execution
-    def run_fn(self, fn, args, pc, depth=0):
+    def run_fn(self, fn, args, pc, depth=0, events=None, st_in=None):
         if depth > 12:
             raise Untranslatable("call depth")
         self.called.add(fn.name)
-        st0 = {"locals": {}, "pc": list(pc), "cells": {}}
+        if st_in is None:
+            st0 = {"pc": list(pc), "events": list(events or []), "mem": {}, "frames": {}, "fid": 0}
+        else:
+            st0 = self._fork_state(st_in)
+            st0["pc"] = list(pc)
+        fid = (max(st0["frames"]) + 1) if st0["frames"] else 1
+        st0["frames"][fid] = {}
+        st0["fid"] = fid
+        st0["locals"] = st0["frames"][fid]
         for (p, t), a in zip(fn.params, args):
             st0["locals"][p] = a
         out = []
@@ -820,7 +866,12 @@ class Exec:
         return out
 
     def _fork_state(self, st):
-        return {"locals": dict(st["locals"]), "pc": list(st["pc"]), "cells": dict(st["cells"])}
+        frames = {k: dict(v) for k, v in st.get("frames", {}).items()}
+        fid = st.get("fid", 0)
+        if fid not in frames:
+            frames[fid] = dict(st.get("locals", {}))
+        return {"pc": list(st["pc"]), "events": list(st.get("events", [])), "mem": dict(st.get("mem", {})),
+                "frames": frames, "fid": fid, "locals": frames[fid]}
 
     def _run_block(self, fn, bb, st, visited, out, depth):
         while True:
@@ -905,9 +956,30 @@ class Exec:
             if m:
                 dest, callee, args_s, nxt = m.group(1), m.group(2), m.group(3), m.group(4)
                 args = [self.eval_operand(a, fn, st) for a in RustDefs._split_top(args_s, ",") if a.strip()]
+                stub = None
+                for rx, tag in self.opaque_calls:
+                    if re.search(rx, callee.strip()):
+                        stub = tag
+                        break
+                if stub is not None:
+                    self.fresh_n += 1
+                    st["events"] = st.get("events", []) + [(stub, args)]
+                    if dest:
+                        _, _, dty = self.parse_place(dest, fn)
+                        self.assign(dest, Lazy(dty, "%s!%d" % (stub, self.fresh_n)), fn, st)
+                    bb = nxt
+                    continue
                 results = self.call(callee.strip(), args, fn, st, depth)
-                for (pc2, outcome) in results:
-                    st2 = self._fork_state(st)
+                for item in results:
+                    pc2, outcome = item[0], item[1]
+                    st_after = item[2] if len(item) > 2 else None
+                    st2 = self._fork_state(st_after if st_after is not None else st)
+                    if st_after is not None:
+                        # back in the caller's frame; the callee's frame is dead
+                        callee_fid = st2["fid"]
+                        st2["fid"] = st["fid"]
+                        st2["locals"] = st2["frames"][st["fid"]]
+                        st2["frames"].pop(callee_fid, None)
                     st2["pc"] = pc2
                     if outcome[0] == "return":
                         if dest:
@@ -931,7 +1003,10 @@ class Exec:
         self.npaths += 1
         if self.npaths > self.max_paths:
             raise Untranslatable("path budget exceeded")
-        out.append(Path(list(st["pc"]), outcome))
+        p = Path(list(st["pc"]), outcome)
+        p.events = list(st.get("events", []))
+        p.state = st
+        out.append(p)
 
     def exec_stmt(self, ln, fn, st):
         if ln.startswith("StorageLive") or ln.startswith("StorageDead") or ln == "nop;" or ln.startswith("FakeRead") \
@@ -998,7 +1073,7 @@ class Exec:
         if m:
             target = self.find_derived(m.group(1), m.group(2))
             if target is not None:
-                return [(p.pc, p.outcome) for p in self.run_fn(target, args, pc, depth + 1)]
+                return [(p.pc, p.outcome, p.state) for p in self.run_fn(target, args, pc, depth + 1, st_in=st)]
             base = strip_path(deref_ty(m.group(1)))
             if base in INT_TYPES or base == "bool" or True:
                 # primitive / opaque (bitwise-comparable handle types are declared in OPAQUE_EQ)
@@ -1052,12 +1127,19 @@ class Exec:
                     res.append((pc2, ("return", Adt("Option<%s>" % m.group(2), 0, {0: {}}))))
                 else:
                     payload = self.field_get(opt, 1, 0, m.group(1), st)
-                    for p in self.run_fn(target, [clo, payload], pc2, depth + 1):
+                    for p in self.run_fn(target, [clo, payload], pc2, depth + 1, st_in=st):
                         if p.outcome[0] == "return":
-                            res.append((p.pc, ("return", Adt("Option<%s>" % m.group(2), 1, {1: {0: p.outcome[1]}}))))
+                            res.append((p.pc, ("return", Adt("Option<%s>" % m.group(2), 1, {1: {0: p.outcome[1]}})), p.state))
                         else:
-                            res.append((p.pc, p.outcome))
+                            res.append((p.pc, p.outcome, p.state))
             return res
+        m = re.match(r"^(?:std::option::|core::option::)?Option::<.+>::(is_none|is_some)$", cs)
+        if m:
+            a0 = self.force(args[0], st)
+            v = self.read_path(a0, [("deref",)], st) if isinstance(a0, Ref) else a0
+            d = self.discr_of(v, st)
+            want = 0 if m.group(1) == "is_none" else 1
+            return [(pc, ("return", Sc(d == z3.BitVecVal(want, 64), "bool")))]
         m = re.match(r"^<(.+) as Clone>::clone$", cs)
         if m:
             a0 = self.force(args[0], st)
@@ -1065,7 +1147,7 @@ class Exec:
         # functions in the loaded dumps ---------------------------------------
         target = self.resolve(cs, fn)
         if target is not None:
-            return [(p.pc, p.outcome) for p in self.run_fn(target, args, pc, depth + 1)]
+            return [(p.pc, p.outcome, p.state) for p in self.run_fn(target, args, pc, depth + 1, st_in=st)]
         raise Untranslatable("call to %s" % cs)
 
     def resolve(self, cs, fn):
@@ -1203,20 +1285,3 @@ def narrow_signed_divrem(op, ta, tb):
     a, b = z3.Extract(k - 1, 0, ta), z3.Extract(k - 1, 0, tb)
     r = (a / b) if op == "Div" else z3.SRem(a, b)
     return z3.SignExt(w - k, r)
-
-
-class LocalCell:
-    """A reference to a local slot of a frame: reads/writes go to st['locals'][name]."""
-    __slots__ = ("st", "name")
-
-    def __init__(self, st, name):
-        self.st = st
-        self.name = name
-
-    @property
-    def v(self):
-        return self.st["locals"].get(self.name)
-
-    @v.setter
-    def v(self, nv):
-        self.st["locals"][self.name] = nv
